@@ -620,7 +620,9 @@ class Plucker(SMUserList):
         :seealso: Plucker.intersects, Plucker.parallel
         """
         l1 = self
-        return not l1.isparallel(l2) and (abs(l1 * l2) < 10*_eps )
+        # reciprocal product of the unit lines = distance x sin(angle between them)
+        rp = (np.dot(l1.w, l2.v) + np.dot(l2.w, l1.v)) / (np.linalg.norm(l1.w) * np.linalg.norm(l2.w))
+        return not l1.isparallel(l2) and (abs(rp) < 100 * _eps * max(1, l1.ppd, l2.ppd))
     
     # ------------------------------------------------------------------------- #
     #  PLUCKER LINE DISTANCE AND INTERSECTION
